@@ -23,21 +23,37 @@ check finds out per finding which variant the tree follows, runs the random case
 model, and reports every as-coded variant as a property violation with the probe as failing input
 (KNOWN-FINDING if listed open in known_findings.json with property C11).  Failures of random cases are
 attributed to an as-coded finding only if the case contains that finding's trigger construct; anything else is
-a VIOLATION of its own."""
+a VIOLATION of its own.
+
+Tie (3), translator: translators/c11_plttables.py regenerates lean/Uft/Gen/PltTables.lean (the special-function
+tables of libmcount/plthook.c, matched BY NAME, plus replay's fixup_syms and the wrappers of wrap.c) on every run;
+the `c11_tables_*` theorems of Props/C11.lean are re-checked against the regenerated lists.  When one of them (or
+any other proof obligation) breaks, the check goes on and searches a failing input: the H1 harness binds the PLT
+symbols by the NAMES a program can bind (setjmp/_setjmp/sigsetjmp/__sigsetjmp, longjmp/_longjmp/siglongjmp/
+__longjmp_chk, …; directed scripts per name pair and the random scripts), and the H5 family contains programs built
+with -O2 -D_FORTIFY_SOURCE=2 (checked with nm -D to bind __longjmp_chk).
+
+Filters x non-local exits: the FX family of checks/c05.py (the hook model `Mcount` with exception unwinding and
+longjmp, the real libmcount under a random -F/-N/-D/-t/-T/-C/-L environment in this check's H1 harness) and C++
+programs recorded with `-N <function>` whose exceptions pass through that function (replay vs the documented
+selection of the ground-truth log)."""
 import glob
 import json
 import os
+import random
 import re
 import subprocess
 import sys
 from concurrent.futures import ThreadPoolExecutor
 
-from lib import common as C, h1, datadir
+from lib import common as C, h1, datadir, mcgen
+from translators import c11_plttables
 
 FLAGS = ("rehook", "excFrame", "jmpCap", "pthExit", "excPlt")
 FINDING_OF = {"rehook": "C11-REHOOK-ORDER", "excFrame": "C11-EXC-FRAME", "jmpCap": "C11-JMPBUF-OVERFLOW",
               "pthExit": "C11-PTHREAD-EXIT", "excPlt": "C11-EXC-PLT", "replay": "C11-LONGJMP-DEPTH",
-              "cygTail": "C11-CYG-TAILCALL"}
+              "cygTail": "C11-CYG-TAILCALL", "ljAlias": "C11-LONGJMP-ALIAS"}
+PROPOSED_FIX = {"C11-LONGJMP-ALIAS": "proposed_fixes/C11-LONGJMP-ALIAS.diff"}
 WHAT = {
     "C11-REHOOK-ORDER": "mcount_rstack_rehook() (libmcount/misc.c) loops top->bottom, so for a tail-call chain on one "
                         "return slot the FIRST entry's trampoline wins: [PLT library function, traced callback it "
@@ -63,6 +79,11 @@ WHAT = {
                         "cygprof_dummy, so the hook is lost at the callback's first library call: the PLT entry is never "
                         "popped and a later library call returns to the wrong place (H5 only: the cygprof path is not in the "
                         "model)",
+    "C11-LONGJMP-ALIAS": "`_longjmp` (the BSD entry point glibc exports next to longjmp/siglongjmp; what _setjmp users call) is "
+                         "missing from longjmp_syms / flush_syms of libmcount/plthook.c and fixup_syms of utils/fstack.c: libmcount "
+                         "takes it for an ordinary function, so when the jump lands in plthook_return the exit hook pops the "
+                         "_longjmp entry and RETURNS INTO THE FRAME THAT CALLED _longjmp with the stack of the setjmp frame: the "
+                         "program computes something else than untraced (full statement of c11_tables_jump_names_partial)",
     "C11-LONGJMP-DEPTH": "replay's longjmp fix-up (utils/fstack.c) keeps one global setjmp_depth (last setjmp seen): after a "
                          "longjmp to any other live jmp_buf every later call is shown too deep "
                          "(c11_prefix_longjmp_depth_witness)",
@@ -70,8 +91,11 @@ WHAT = {
 
 # child ids of harness/h1_c11_driver.c
 F_PLAIN = (100, 112, 113)
-F_SETJMP = (101, 110)
-F_LONGJMP = (102, 109)
+# the names a program can bind (plt_names of the driver): what the PROPERTY needs each of them to be
+SETJMP_NAMES = {"setjmp": 101, "__sigsetjmp": 110, "_setjmp": 114, "sigsetjmp": 115}
+LONGJMP_NAMES = {"longjmp": 102, "siglongjmp": 109, "__longjmp_chk": 116, "_longjmp": 117}
+F_SETJMP = tuple(sorted(SETJMP_NAMES.values()))
+F_LONGJMP = (102, 109, 116)          # + 117 (_longjmp) when the tree has the repair of C11-LONGJMP-ALIAS
 F_VFORK, F_EXECL, F_EXIT, F_PEXIT = 103, 104, 105, 106
 WATCH = 63
 
@@ -165,9 +189,13 @@ class H1Gen:
     """random well-formed op sequences (WellFormedOp of Lemmas/NonLocal.lean) with the expected
     observable behaviour of an untraced program: where every return goes, how deep every call is."""
 
-    def __init__(self, rng, nops):
+    def __init__(self, rng, nops, lj_ids=F_LONGJMP, sj_ids=F_SETJMP, nrng=None):
         self.rng = rng
         self.nops = nops
+        self.lj_ids, self.sj_ids = tuple(lj_ids), tuple(sj_ids)
+        # which NAME a setjmp/longjmp is bound by comes from its own generator: the shape of the histories
+        # does not depend on how many names there are
+        self.nrng = nrng or rng
         self.lines = []
         self.expect = []      # per line: dict(last=..., depth_of_new_entries=[...]) for the monitor
         self.frames = []      # dicts: slot, orig, links (number of hooked logical calls on it), id, ver
@@ -246,7 +274,8 @@ class H1Gen:
         self.jbs[j] = ([(f["id"], f["ver"]) for f in self.frames], slot, orig, [dict(f) for f in self.frames])
         d = self.depth()
         self.calls.append(d)
-        self.emit("SETJMP %d %d %d %d" % (j, self.rng.choice(F_SETJMP), slot, orig), last=orig, pushed=d)
+        self.rng.choice((0, 1))     # (the draw that used to pick one of two names: the histories stay what they were)
+        self.emit("SETJMP %d %d %d %d" % (j, self.nrng.choice(self.sj_ids), slot, orig), last=orig, pushed=d)
         return True
 
     def live_jbs(self):
@@ -266,7 +295,11 @@ class H1Gen:
         d = self.depth()
         self.calls.append(d)
         self.frames = [dict(f) for f in frames]
-        self.emit("LONGJMP %d %d %d %d" % (j, self.rng.choice(F_LONGJMP), slot, orig), last=sorig, pushed=d)
+        self.rng.choice((0, 1))
+        # marked: the jump's own ENTRY record and those of all callers must be in the trace before the jump
+        # discards them ("the trace ... marks the jump")
+        self.emit("LONGJMP %d %d %d %d" % (j, self.nrng.choice(self.lj_ids), slot, orig), last=sorig, pushed=d,
+                  marked=len(self.calls))
         return True
 
     def vfork(self):
@@ -424,6 +457,12 @@ def h1_monitor(gen, impls):
                 bad.append("op %d (%s): live return slot %d overwritten with %s (was %d)" % (i, line, s, mem[s - 1], v))
         if kv.get("recs", "-") != "-":
             recs += kv["recs"].split(",")
+        if "marked" in exp:
+            ne = sum(1 for r in recs if r[0] == "E")
+            if ne != exp["marked"]:
+                bad.append("op %d (%s): %d hooked calls were made up to and including this jump but only %d ENTRY records "
+                           "are written when it discards the callers: the jump / the abandoned calls are not in the trace" % (
+                               i, line, exp["marked"], ne))
     # ENTRY records in call order carry the true depth
     entries = [r for r in recs if r[0] == "E"]
     for n, r in enumerate(entries):
@@ -457,9 +496,15 @@ FLAVOURS = {"pg": ["-pg"], "cyg": ["-finstrument-functions"], "fentry": ["-pg", 
 class E2EGen:
     """random scripts for harness/c11_e2e.c; simulates the interpreter to keep the script well defined"""
 
-    def __init__(self, rng, cpp, nops, allow=("thread", "fork", "vfork", "exit", "lib"), calm=False):
+    def __init__(self, rng, cpp, nops, allow=("thread", "fork", "vfork", "exit", "lib"), calm=False, plain_exc=False,
+                 latest_only=False):
         self.rng = rng
         self.cpp = cpp
+        # plain_exc: exceptions (try / rethrow / throw) only: no setjmp/longjmp, no objects whose destructors run in
+        # landing pads, no static initialisers (programs recorded with a -N filter)
+        self.plain_exc = plain_exc
+        # latest_only: longjmp only to the jmp_buf armed last (replay's open finding C11-LONGJMP-DEPTH stays out)
+        self.latest_only = latest_only
         # calm: no exceptions and no setjmp/longjmp (programs interrupted by an asynchronous signal: a signal
         # inside the unwinder or between longjmp's entry and exit hooks is outside the model and not deterministic)
         self.calm = calm
@@ -570,7 +615,9 @@ class E2EGen:
                 kinds = ["OP_CALL", "OP_CALL"]
                 if self.cpp and not simple and self.calm:
                     kinds += ["OP_DTORCALL"]
-                if self.cpp and not simple and not self.calm:
+                if self.cpp and not simple and not self.calm and self.plain_exc:
+                    kinds += ["OP_TRYCALL", "OP_TRYCALL", "OP_TRYCALL", "OP_RETHROWCALL"]
+                elif self.cpp and not simple and not self.calm:
                     kinds += ["OP_TRYCALL", "OP_TRYCALL", "OP_DTORCALL", "OP_RETHROWCALL"]
                     if "lib" in self.allow:
                         kinds += ["OP_LIBDTORCALL"]
@@ -583,7 +630,7 @@ class E2EGen:
                 fn = self.pick_any(stack)
                 self.op("OP_TAIL", fn)
                 stack.append({"fn": fn, "via": "tail", "armed": set(), "t": fn >= 10})
-            elif r < 0.56 and not simple and not self.calm:
+            elif r < 0.56 and not simple and not self.calm and not self.plain_exc:
                 b = rng.choice(bufs)
                 sig = rng.random() < 0.3
                 self.op("OP_SIGSETJMP" if sig else "OP_SETJMP", b)
@@ -598,7 +645,10 @@ class E2EGen:
                     continue
                 if armed[key][1] != self.arm_clock:
                     # not the setjmp that replay saw last
+                    if self.latest_only:
+                        continue
                     self.features.add("replay")
+                self.features.add("longjmp")
                 self.op("OP_SIGLONGJMP" if key[1] else "OP_LONGJMP", key[0])
                 del stack[height:]
                 for b in list(armed):
@@ -614,7 +664,7 @@ class E2EGen:
                 self.op("OP_CALL", fn)
                 stack.append({"fn": 26, "via": "cbframe", "armed": set(), "t": False})
                 stack.append({"fn": fn, "via": "trycb", "armed": set(), "t": False})
-            elif r < 0.78 and self.cpp and not simple and not self.calm:
+            elif r < 0.78 and self.cpp and not simple and not self.calm and not self.plain_exc:
                 self.op("OP_STATICTHROW")
                 self.features.add("excPlt")
             elif r < 0.81 and "lib" in self.allow:
@@ -682,7 +732,7 @@ def build_prog(d, name, ops, cpp, flavour, opt):
         f.write(script_h(ops))
     exe = os.path.join(pd, "prog")
     cc = ["g++", "-x", "c++"] if cpp else ["gcc", "-x", "c"]
-    cmd = cc + [opt, "-g", "-w"] + FLAVOURS[flavour] + ["-I", H, "-include", os.path.join(pd, "script.h"),
+    cmd = cc + opt.split() + ["-g", "-w"] + FLAVOURS[flavour] + ["-I", H, "-include", os.path.join(pd, "script.h"),
                                                         os.path.join(H, "c11_e2e.c"), "-x", "none",
                                                         os.path.join(d, "gt.o"), "-L", d, "-lc11e2e",
                                                         "-Wl,-rpath," + d, "-lpthread", "-o", exe]
@@ -714,14 +764,24 @@ def parse_gt(text):
     return ent, tids, rest
 
 
-def run_e2e_case(ctx, d, uftrace_src, name, ops, cpp, flavour, opt, alarm=False, record_opts=(), behaviour_only=False):
-    """build, run natively and traced, compare.  Returns dict(problems=[...], info)"""
+def bound_jump_symbols(exe):
+    """the setjmp/longjmp entry points the program really binds (nm -D)"""
+    r = C.sh(["nm", "-D", "--undefined-only", exe])
+    return sorted(set(re.sub(r"@.*", "", l.split()[-1]) for l in r.stdout.split("\n") if l.split() and "jmp" in l.split()[-1]))
+
+
+def run_e2e_case(ctx, d, uftrace_src, name, ops, cpp, flavour, opt, alarm=False, record_opts=(), behaviour_only=False,
+                 expect=None):
+    """build, run natively and traced, compare.  Returns dict(problems=[...], info).
+    expect: the documented selection of the record-time filter in record_opts, as a function on one thread's
+    ground-truth entries [(fn, depth)] -> [(fn, shown depth)]"""
     res = {"name": name, "flavour": flavour, "opt": opt, "cpp": cpp, "problems": [], "nops": len(ops), "alarm": alarm}
     exe, log, pd = build_prog(d, name, ops, cpp, flavour, opt)
     if not exe:
         res["problems"].append("build failed: " + log[-400:])
         res["build_failed"] = True
         return res
+    res["binds"] = bound_jump_symbols(exe)
     args = ["alarm"] if alarm else []
     try:
         p = subprocess.run([exe] + args, stdout=subprocess.PIPE, stderr=subprocess.PIPE, timeout=60, cwd=pd)
@@ -767,6 +827,8 @@ def run_e2e_case(ctx, d, uftrace_src, name, ops, cpp, flavour, opt, alarm=False,
             shown.setdefault(t_tids[tid], []).append((NAME_ID[nm], depth))
     for idx in sorted(t_ent):
         want, got = t_ent[idx], shown.get(idx, [])
+        if expect is not None:
+            want = expect(want)
         if want != got:
             k = next((i for i in range(min(len(want), len(got))) if want[i] != got[i]), min(len(want), len(got)))
             res["problems"].append("replay depth: thread %d call #%d: ground truth (fn,depth)=%s, replay shows %s" % (
@@ -830,35 +892,171 @@ def e2e_probes():
     # -finstrument-functions: a callback tail-called by a library function makes a library call
     pr["cygTail"] = dict(cpp=False, flavour="cyg", opt="-O0", ops=[
         P("OP_LEAF"), P("OP_LIBTAIL"), P("OP_LEAF"), P("OP_CALL", 1), P("OP_LEAF"), P("OP_RET", 1), P("OP_RET", 0)])
+    # the BSD entry points: `longjmp` compiled as a call of _longjmp (setjmp() is _setjmp() already)
+    pr["ljAlias"] = dict(cpp=False, flavour="pg", opt="-O0 -Dlongjmp=_longjmp", ops=[
+        P("OP_LEAF"), P("OP_SETJMP", 0), P("OP_LEAF"), P("OP_CALL", 1), P("OP_CALL", 2), P("OP_LEAF"), P("OP_LONGJMP", 0),
+        P("OP_LEAF"), P("OP_CALL", 3), P("OP_LEAF"), P("OP_RET", 1), P("OP_LEAF"), P("OP_RET", 0)], binds="_longjmp")
     for v in pr.values():
         v["ops"] = v["ops"] + [P("OP_EXIT", 42)]
     return pr
+
+
+FORTIFY = "-O2 -U_FORTIFY_SOURCE -D_FORTIFY_SOURCE=2"
+
+
+def e2e_directed():
+    """fixed programs that are not tied to a finding: (name, ops, cpp, flavour, opt, record_opts, features, -N function)"""
+    out = []
+    # longjmp()/siglongjmp() of a fortified build are __longjmp_chk(); the jump goes to the jmp_buf armed last
+    out.append(("fortify-c", [P("OP_LEAF"), P("OP_SETJMP", 0), P("OP_LEAF"), P("OP_CALL", 1), P("OP_CALL", 2), P("OP_LEAF"),
+                              P("OP_LONGJMP", 0), P("OP_LEAF"), P("OP_CALL", 3), P("OP_LEAF"), P("OP_RET", 1), P("OP_LEAF"),
+                              P("OP_RET", 0)], False, "pg", FORTIFY, (), {"fortify"}, None))
+    out.append(("fortify-sig", [P("OP_SIGSETJMP", 1), P("OP_CALL", 2), P("OP_CALL", 4), P("OP_LEAF"), P("OP_SIGLONGJMP", 1),
+                                P("OP_LEAF"), P("OP_CALL", 3), P("OP_LEAF"), P("OP_RET", 0), P("OP_RET", 0)],
+                True, "fentry", FORTIFY, (), {"fortify"}, None))
+    # an exception passes through the function given to -N and is caught further up; then more calls
+    out.append(("nfilter-exc", [P("OP_TRYCALL", 1), P("OP_CALL", 3), P("OP_LEAF"), P("OP_CALL", 2), P("OP_LEAF"), P("OP_THROW", 5),
+                                P("OP_LEAF"), P("OP_CALL", 4), P("OP_LEAF"), P("OP_RET", 1), P("OP_LEAF"), P("OP_RET", 0)],
+                True, "pg", "-O0", ("-N", "^f3$"), {"nfilter"}, 3))
+    out.append(("nfilter-rethrow", [P("OP_TRYCALL", 2), P("OP_RETHROWCALL", 5), P("OP_CALL", 1), P("OP_LEAF"), P("OP_THROW", 9),
+                                    P("OP_LEAF"), P("OP_CALL", 3), P("OP_LEAF"), P("OP_RET", 2), P("OP_RET", 0)],
+                True, "fentry", "-O2", ("-N", "^f5$"), {"nfilter"}, 5))
+    return [(n, ops + [P("OP_EXIT", 42)], cpp, fl, opt, ro, ft, nf) for n, ops, cpp, fl, opt, ro, ft, nf in out]
 
 
 # ============================================================================ run
 def report_finding(ctx, findings, fid, replay_obj, name):
     if fid in findings:
         C.known(ctx, findings[fid], "%s %s" % (fid, WHAT[fid]))
+    elif fid in PROPOSED_FIX and finding_status(fid) is None:
+        # a genuine defect of /repo found by this check that the coordinator has not recorded yet
+        msg = "PENDING-FINDING: property=%s %s %s [not yet recorded in known_findings.json; proposed fix %s]" % (
+            ctx.prop, fid, WHAT[fid], PROPOSED_FIX[fid])
+        ctx.notes.append(msg)
+        ctx.coverage.setdefault("pending_findings", []).append(dict(replay_obj, id=fid, what=WHAT[fid],
+                                                                    proposed_fix=PROPOSED_FIX[fid]))
+        print(msg)
     else:
         obj = dict(replay_obj)
         obj.update({"kind": "property-violated-on-implementation", "finding": fid, "what": WHAT[fid]})
         C.violation(ctx, name, obj)
 
 
+# main: _setjmp(A); f1: f2: _longjmp(A); main: f3 — the BSD entry points (child ids 114 / 117)
+ALIAS_PROBE = ["CALL m 0 60 1000 61", "SETJMP 0 114 55 1001", "CALL m 1 50 1002 59", "CALL m 2 44 1003 49",
+               "LONGJMP 0 117 40 1004", "CALL m 3 50 1005 59", "RET 50", "RET 60"]
+
+
+def directed_name_scripts(lj_ids):
+    """one short history per (setjmp name, longjmp name): arm, two nested calls, jump, one more call"""
+    gens = []
+    r = random.Random(20260930)
+    inv_s = {v: k for k, v in SETJMP_NAMES.items()}
+    inv_l = {v: k for k, v in LONGJMP_NAMES.items()}
+    for sid in F_SETJMP:
+        for lid in lj_ids:
+            g = H1Gen(r, 0, lj_ids=(lid,), sj_ids=(sid,))
+            g.frames_log = {}
+            patch_frames_log(g)
+            g.call(k="m", slot=62, fpw=0)
+            g.setjmp()
+            g.call(k="m")
+            g.call(k="m")
+            g.longjmp(g.live_jbs()[0])
+            g.call(k="m")
+            g.ret()
+            g.ret()
+            g.tag = "%s/%s" % (inv_s[sid], inv_l[lid])
+            g.features.add("names")
+            gens.append(g)
+    # the same jmp_buf armed a second time at the same depth by another function, then the jump: the callers saved
+    # with the jmp_buf must be those of the second setjmp
+    for lid in lj_ids[:2]:
+        g = H1Gen(r, 0, lj_ids=(lid,), sj_ids=(F_SETJMP[0],))
+        g.frames_log = {}
+        patch_frames_log(g)
+        g.rng = type("Fixed", (), {"randrange": lambda self, n: 0, "randint": lambda self, a, b: a, "random": lambda self: 0.5,
+                                   "choice": lambda self, xs: xs[0]})()
+        g.call(k="m", slot=62, fpw=0)
+        g.call(k="m")
+        g.setjmp()
+        g.ret()
+        g.call(k="m")
+        g.setjmp()
+        g.call(k="m")
+        g.longjmp(g.live_jbs()[0])
+        g.call(k="m")
+        g.ret()
+        g.ret()
+        g.ret()
+        g.tag = "rearm/%s" % inv_l[lid]
+        g.features.add("names")
+        gens.append(g)
+    return gens
+
+
+def broken_theorems(problems):
+    """names of the declarations of Props/C11.lean that the errors of a failed build point into"""
+    try:
+        src = open(os.path.join(C.LEAN, "Uft", "Props", "C11.lean")).read().split("\n")
+    except OSError:
+        return []
+    names = []
+    for pr in problems:
+        m = re.search(r"Uft/Props/C11\.lean:(\d+):", pr)
+        if not m:
+            continue
+        k = min(int(m.group(1)), len(src)) - 1
+        while k >= 0 and not re.match(r"(theorem|example|def|lemma)\b", src[k]):
+            k -= 1
+        if k >= 0:
+            mm = re.match(r"(theorem|def|lemma)\s+(\S+)", src[k])
+            nm = mm.group(2) if mm else "example at line %d" % (k + 1)
+            if nm not in names:
+                names.append(nm)
+    return names
+
+
+def finding_status(fid):
+    try:
+        kf = json.load(open(os.path.join(C.VERIF, "known_findings.json")))
+    except (OSError, ValueError):
+        return None
+    for f in kf.get("findings", []):
+        if f.get("id") == fid:
+            return f.get("status")
+    return None
+
+
 def run(ctx):
-    ok, problems = C.prove(ctx, "C11")
-    if not ok:
-        C.violation(ctx, "proof", {"kind": "proof-obligation-broken", "problems": problems}, True)
-        return C.finish(ctx)
+    ctx.snapshot()
     findings = {f["id"]: f for f in C.known_findings("C11")}
     quick = ctx.tier == "quick"
+    proof_problems = []
+    tabinfo = None
+    try:
+        changed, tabinfo = c11_plttables.main(ctx.src, ctx.scratch)
+        ctx.notes.append("Gen/PltTables.lean regenerated from libmcount/plthook.c, wrap.c, internal.h, utils/fstack.c "
+                         "(changed=%s)" % changed)
+    except Exception as e:
+        proof_problems.append("translator c11_plttables failed: %s" % e)
 
-    # ---------------------------------------------------------------- builds (in parallel)
-    ctx.snapshot()
-    with ThreadPoolExecutor(2) as ex:
+    # ---------------------------------------------------------------- proofs and builds (in parallel)
+    with ThreadPoolExecutor(3) as ex:
         fut_make = ex.submit(ctx.make)
+        fut_prove = ex.submit(C.prove, ctx, "C11")
         exe, log = build_h1(ctx)
         made, mlog = fut_make.result()
+        ok, problems = fut_prove.result()
+    if not ok:
+        # a broken proof obligation is not by itself a violation (DESIGN section 7): go on and search a failing input
+        proof_problems += problems
+        bok, blog = C.lake_build(["uv_C11", "uv_Mcount"])
+        if not bok:
+            C.violation(ctx, "proof", {"kind": "proof-obligation-broken", "problems": proof_problems,
+                                       "note": "the model drivers do not build either: no search possible",
+                                       "log": blog[-1500:]}, True)
+            return C.finish(ctx)
     if not exe:
         C.violation(ctx, "build", {"kind": "harness-build-failed", "log": log[-3000:]}, True)
         return C.finish(ctx)
@@ -899,11 +1097,26 @@ def run(ctx):
                                                   "model_as_is": none_fixed[i], "stderr": pres[i][2]["stderr"][-500:],
                                                   "theorem": "c11_instep_invariant (correspondence)"}, True)
 
+    # ---------------------------------------------------------------- H1: the jump entry points BY NAME
+    # C11-LONGJMP-ALIAS: is `_longjmp` a longjmp for this libmcount?  (the model treats every LONGJMP op as one)
+    am, ai, ar = run_script(ctx, exe, ALIAS_PROBE, 9100)
+    amo = model_run(fix, [[norm_model_line(x) for x in ALIAS_PROBE]])[0]
+    alias_ok = [C.norm(x) for x in ai] == [C.norm(x) for x in amo]
+    probe_state["ljAlias"] = "fixed" if alias_ok else "asis"
+    lj_ids = F_LONGJMP + ((LONGJMP_NAMES["_longjmp"],) if alias_ok else ())
+    # what the regenerated tables say about the names (evidence; the search below does not depend on it)
+    names_by_tables = {}
+    if tabinfo:
+        for nm in sorted(set(SETJMP_NAMES) | set(LONGJMP_NAMES) | {"vfork", "_Unwind_RaiseException", "exit", "execl", "fork"}):
+            names_by_tables[nm] = c11_plttables.flags_of(tabinfo, nm)
+
     # ---------------------------------------------------------------- H1: random scripts
     nscripts = 60 if quick else 1500
-    gens = []
+    gens = directed_name_scripts(lj_ids)
+    ndirected = len(gens)
     for i in range(nscripts):
-        g = H1Gen(ctx.rng, ctx.rng.choice([12, 25, 40, 70]))
+        g = H1Gen(ctx.rng, ctx.rng.choice([12, 25, 40, 70]), lj_ids=lj_ids,
+                  nrng=random.Random(ctx.seed * 7919 + 31 * i + 5))
         g.frames_log = {}
         patch_frames_log(g)
         g.generate()
@@ -986,9 +1199,39 @@ def run(ctx):
         if "libtail" in feats and flavour == "cyg":
             feats.add("cygTail")
         cases.append(("prog%d" % i, ops, cpp, flavour, opt, alarm, (), feats))
+    # --- builds that bind other entry points, and programs recorded with a -N filter (after the families above:
+    # their generator draws stay what they were)
+    from checks import c05 as c05chk
+
+    def nexpect(fn):
+        return lambda ent: c05chk.doc_filter_entries(ent, N={fn})
+    for name, ops, cpp, flavour, opt, ro, feats, nf in e2e_directed():
+        cases.append((name, ops, cpp, flavour, opt, False, ro, set(feats), nexpect(nf) if nf is not None else None))
+    erng = random.Random(ctx.seed * 1000003 + 1111)
+    for i in range(3 if quick else 60):
+        cpp = erng.random() < 0.5
+        g = E2EGen(erng, cpp, erng.choice([25, 50]), allow=("vfork", "exit"), latest_only=True)
+        ops = g.generate()
+        feats = set(g.features) | {"fortify"}
+        flavour = flv[i % 3]
+        if "excdtor" in feats and flavour == "fentry":
+            feats.add("excFrame")
+        cases.append(("fort%d" % i, ops, cpp, flavour, FORTIFY, False, (), feats))
+    for i in range(4 if quick else 80):
+        for _ in range(30):
+            g = E2EGen(erng, True, erng.choice([30, 60]), allow=(), plain_exc=True)
+            ops = g.generate()
+            called = sorted(set(a for k, a, _ in ops if k in ("OP_CALL", "OP_TRYCALL", "OP_RETHROWCALL", "OP_TAIL") and a != 0))
+            if len(called) >= 2 and any(k == "OP_THROW" for k, _, _ in ops):
+                break
+        nf = erng.choice(called) if called else 3
+        nm = "f%d" % nf if nf < 10 else "t%d" % (nf - 10)
+        cases.append(("nfilt%d" % i, ops, True, flv[i % 3], "-O2" if i % 2 else "-O0", False, ("-N", "^%s$" % nm),
+                      set(g.features) | {"nfilter"}, nexpect(nf)))
     with ThreadPoolExecutor(12) as ex:
         eres = list(ex.map(lambda c: run_e2e_case(ctx, d, ctx.src, c[0], c[1], c[2], c[3], c[4], c[5], c[6],
-                                                  behaviour_only=(c[0] == "probe-jmpCap")), cases))
+                                                  behaviour_only=(c[0] == "probe-jmpCap"),
+                                                  expect=(c[8] if len(c) > 8 else None)), cases))
     e2e_fix = {}
     e2e_bad = 0
     e2e_attr = {}
@@ -1009,8 +1252,22 @@ def run(ctx):
         if r["problems"]:
             e2e_bad += 1
             r["features"] = sorted(feats)
+    # did the special builds bind what they are meant to bind?
+    fortified = [r for c, r in zip(cases, eres) if "fortify" in c[7] and not r.get("build_failed")]
+    fort_bound = sum(1 for r in fortified if "__longjmp_chk" in r.get("binds", []))
+    for c, r in zip(cases, eres):
+        if c[0] in ("fortify-c", "fortify-sig") and not r.get("build_failed") and "__longjmp_chk" not in r.get("binds", []):
+            ctx.notes.append("%s: the fortified build binds %s, not __longjmp_chk (toolchain without fortified setjmp.h?)" % (
+                c[0], r.get("binds")))
+        if c[0] == "probe-ljAlias" and not r.get("build_failed") and "_longjmp" not in r.get("binds", []):
+            ctx.notes.append("probe-ljAlias: the build binds %s, not _longjmp" % r.get("binds"))
     # the probes decide which findings are present in this tree
     unfixed = set(f for f in FLAGS if not fix.get(f, True)) | set(f for f, okp in e2e_fix.items() if not okp)
+    if not alias_ok:
+        unfixed.add("ljAlias")
+    if ("ljAlias" in e2e_fix) and e2e_fix["ljAlias"] != alias_ok:
+        ctx.notes.append("probe ljAlias: H1 says %s, H5 probe %s" % ("repaired" if alias_ok else "as found",
+                                                                     "passes" if e2e_fix["ljAlias"] else "fails"))
     for f in ("rehook", "excFrame", "pthExit", "excPlt"):
         if f in e2e_fix and f in probe_state and probe_state[f] in ("fixed", "asis"):
             if e2e_fix[f] != (probe_state[f] == "fixed") and f != "excFrame":
@@ -1037,8 +1294,9 @@ def run(ctx):
         pr = probes.get(f)
         er = next((r for c, r in zip(cases, eres) if c[0] == "probe-" + f), None)
         report_finding(ctx, findings, fid, {
-            "h1_script": PROBES.get(f), "h1_impl": pres[i][1] if i is not None else None,
-            "h1_model_repaired": all_fixed[i] if i is not None else None,
+            "h1_script": PROBES.get(f) or (ALIAS_PROBE if f == "ljAlias" else None),
+            "h1_impl": pres[i][1] if i is not None else (ai if f == "ljAlias" else None),
+            "h1_model_repaired": all_fixed[i] if i is not None else (amo if f == "ljAlias" else None),
             "e2e_probe": {"script": pr["ops"][:40], "lang": "c++" if pr["cpp"] else "c", "flavour": pr["flavour"],
                           "record_opts": pr.get("record_opts")} if pr else None,
             "e2e_result": er["problems"] if er else None,
@@ -1064,15 +1322,41 @@ def run(ctx):
                                                         "stream": ["%d.%d.%s %s" % x for x in st][:80],
                                                         "theorem": "c11_replay_depth_coherent (hypothesis)"})
 
+    # ---------------------------------------------------------------- filters x non-local exits (hook model `Mcount`)
+    fxst = c05chk.fx_family(ctx, exe, 60 if quick else 1500, report=False,
+                            rng=random.Random(ctx.seed * 1000003 + 1105))
+    for k, v in sorted(fxst["variant"].items()):
+        if v is False:
+            ctx.notes.append("%s (as found; reported by the check of C05): %d FX monitor failures attributed" % (
+                c05chk.FX_FINDINGS[k][0], fxst["attributed"].get(k, 0)))
+
+    # ---------------------------------------------------------------- a proof obligation broke: what did the search find?
+    if proof_problems:
+        concrete = [pth for pth, nfi in ctx.violations if not nfi]
+        C.violation(ctx, "proof", {
+            "kind": "proof-obligation-broken", "theorems": broken_theorems(proof_problems), "problems": proof_problems[:30],
+            "tables_say": names_by_tables,
+            "searched": "H1 by name: %d directed (setjmp name, longjmp name) histories + %d random ones; H5: %d programs, %d "
+                        "fortified (%d bind __longjmp_chk), %d recorded with -N; FX: %d cases" % (
+                            ndirected, nscripts, len(cases), len(fortified), fort_bound,
+                            sum(1 for c in cases if "nfilter" in c[7]), fxst["cases"]),
+            "failing_inputs_found": concrete[:6]}, no_failing_input=not concrete)
+
     ctx.coverage.update({
-        "evaluations": nops + sum(r.get("entries", 0) for r in eres),
+        "evaluations": nops + sum(r.get("entries", 0) for r in eres) + fxst["ops"],
         "distinct_nontrivial": len(distinct) + len(cases),
         "rule": "H1: random op sequences generated by a simulation of the real stack (WellFormedOp), each op compared "
                 "with the model in full (returned address, 63 return slots, idx, record_idx, in_exception, new records) "
                 "and checked by the monitors (return target, unwinder view, ENTRY depth); distinct = distinct op-kind "
                 "sequences.  H5: generated interpreter scripts, native vs traced stdout/status, replay depth of every "
                 "traced call vs the program's own log, record-stream coherence and Lean replay model",
-        "h1_scripts": nscripts, "h1_ops": nops, "h1_op_kinds": opkinds, "h1_probe_state": probe_state,
+        "h1_scripts": nscripts, "h1_directed_name_scripts": ndirected,
+        "h1_names": {"setjmp": sorted(SETJMP_NAMES), "longjmp": sorted(n for n, i in LONGJMP_NAMES.items() if i in lj_ids)},
+        "tables_say": names_by_tables,
+        "e2e_fortified_programs": len(fortified), "e2e_fortified_binding___longjmp_chk": fort_bound,
+        "e2e_nfilter_programs": sum(1 for c in cases if "nfilter" in c[7]),
+        "fx": {k: v for k, v in fxst.items()},
+        "h1_ops": nops, "h1_op_kinds": opkinds, "h1_probe_state": probe_state,
         "h1_model_code_disagreements": disagree, "h1_monitor_failures": monitor_fail,
         "h1_monitor_failures_attributed": attributed,
         "e2e_programs": len(cases), "e2e_calls_depth_checked": calls_checked, "e2e_failures": e2e_bad,
